@@ -862,10 +862,12 @@ pub fn receive_rewards(mut deps: DepsMut, env: Env, info: MessageInfo) -> Contra
     }
 
     let amount = coin.unwrap().amount;
+    // dao_treasury_fee is not bounded by the config validation: do not panic on overflow
     let fee = config
         .protocol_fee_config
         .dao_treasury_fee
-        .multiply_ratio(amount, 100_000u128);
+        .checked_multiply_ratio(amount, 100_000u128)
+        .map_err(|e| cosmwasm_std::StdError::generic_err(e.to_string()))?;
     let amount_after_fees = amount.checked_sub(fee);
     if amount_after_fees.is_err() {
         return Err(ContractError::ReceiveRewardsTooSmall {
